@@ -15,7 +15,7 @@ from engine.runner import Shard
 from props import fsm_common as F
 
 MODELS = ['fmt_stub', 'HfSerialize', 'HpackEnc', 'CellBytes', 'FrozensetDeopt', 'CharClassRe',
-          'FrameFeed']
+          'FrameFeed', 'SettingsBlob']
 BOUNDS = {
     'calls': 'send_headers (every block kind incl. an invalid block, end_stream flag, the three '
              'priority arguments None or symbolic incl. out-of-range) and push_stream (parent and '
@@ -296,4 +296,8 @@ def shards(tier, seed):
                                  make_symbolic_field(block != 'request' and False or
                                                      block == 'request', block, nlen, after),
                                  budget=120))
+    # HEADER_TABLE_SIZE announced in the HTTP2-Settings header of an h2c upgrade
+    from props import c25
+    out.append(Shard('upgrade_handover', c25.h_settings_handover(True), budget=120,
+                     expect=['upgraded']))
     return out
